@@ -35,6 +35,7 @@ def make_case(seed: int, index: int, big=False, ambiguous=False, depth=2, pad=No
 
 
 HEADER_KEYS = {"suit-cose-algorithm-id", "suit-cose-key-id", "suit-cose-iv"}
+ONE_CHAR = ["1", "_", "0", "-", " ", "9", "~", "@"]
 DIGIT_HEX = ["1234", "2024", "00", "0123", "99", "10", "0b11", "1e10", "4142", "20240926", "7", "007"]
 
 
@@ -49,6 +50,10 @@ def perturb(desc, rng, feats=None):
             feats.add("header-labels-descending")
         out = {}
         for k, v in items:
+            if k == "suit-components" and isinstance(v, list) and rng.random() < 0.4:
+                # one-character identifier parts that are not letters (a one-character string is the byte of that character, whatever it is)
+                v = [list(c) + [rng.choice(ONE_CHAR)] if isinstance(c, list) and rng.random() < 0.6 else c for c in v]
+                feats.add("one-char-part-not-a-letter")
             if k in ("suit-parameter-content", "suit-cose-key-id") and isinstance(v, str) and rng.random() < 0.35:
                 v = rng.choice([h for h in DIGIT_HEX if len(h) % 2 == 0])
                 feats.add("digits-only-hex")
